@@ -1,5 +1,6 @@
 import Txtpp.Model.Fs
 import Txtpp.Lemmas.ShellFacts
+import Txtpp.Lemmas.EntryGuard
 /-!
 # Property C17 — run commands execute in the source's directory with the documented contract
 
@@ -57,5 +58,25 @@ theorem command_is_one_verbatim_argument (shellCmd command : List Char) :
     (shellArgv shellCmd command).length = (shellOf shellCmd).2.length + 2 := shellArgv_last shellCmd command
 
 theorem default_shell_is_sh_c : shellOf [] = ("sh".toList, ["-c".toList]) := shellOf_default
+
+/-- **the guard of `main`**: the binary refuses to start (no configuration is built, nothing runs) exactly when
+`TXTPP_FILE` is set to a non-empty text - whatever the command line says; otherwise it runs the configuration
+of the command line, unchanged -/
+theorem refuses_to_start_iff_txtpp_file_set (e : EnvVar) (p : CliParsed) :
+    (entry e p = none ↔ ∃ s, e = .val s ∧ s ≠ []) ∧ (∀ c, entry e p = some c → c = p.config) :=
+  ⟨entry_none_iff e p, fun c h => entry_some e p c h⟩
+
+/-- **commands cannot recurse into txtpp**: the value a command of the source `dir/name` finds in `TXTPP_FILE`
+(the `file` action of the model's command world, `Shell::run`'s `.env(TXTPP_FILE, file)`) is the displayed
+source path, which is never empty - so a txtpp binary started by that command, with any command line,
+refuses to start -/
+theorem commands_cannot_recurse (cfg : Cfg) (dir : Path) (name : Str) (hn : name ≠ []) (fs : FS) (p : CliParsed) :
+    (runAct cfg (dir ++ [name]).dropLast (joinPath (dir ++ [name])) fs "file".toList []).1 =
+      encodeUtf8 (joinPath (dir ++ [name])) ∧
+    entry (.val (joinPath (dir ++ [name]))) p = none := by
+  refine ⟨by simp [runAct], (entry_none_iff _ p).2 ⟨_, rfl, joinPath_file_ne_nil dir name hn⟩⟩
+
+example : entry (.val "a.txt.txtpp".toList) {} = none ∧ entry .unset {} = some ({} : CliParsed).config ∧
+    entry (.val []) {} ≠ none ∧ entry .notUnicode {} ≠ none := by decide
 
 end C17
